@@ -260,7 +260,12 @@ def let_phase(chk, hy, impl, sigs, results, n_calls, max_args):
                 continue
             for _ in range(n_calls):
                 pos, kw = P.gen_call(rng, s, max_args)
-                r_hy, r_py = P.run_call(hf, pos, kw), P.run_call(kpyf, pos, kw)
+                def safe(fn_):
+                    try:
+                        return P.run_call(fn_, pos, kw)
+                    except Exception as e_:      # a bound value of an unexpected kind (e.g. the function itself)
+                        return ("UnexpectedValue", "%s: %s" % (type(e_).__name__, str(e_)[:80]))
+                r_hy, r_py = safe(hf), safe(kpyf)
                 chk.count("let-enclosed:" + ("bound" if r_py != "TypeErr" else "typeerror"))
                 chk.count("let-enclosed:" + kind)
                 if s.posonly:
